@@ -758,6 +758,49 @@ cfg("Map", lambda: Map(dict(MP)), lambda s: s in MP, map_model, "syes",
     kind="Map", shadow=lambda s: MP[s], skip=ARRAYS)
 
 
+# legacy mapped compounds: a mapping alternative next to a container type;
+# values the mapping cannot even hash are the container alternative's
+LMAP = {"yes": 1, "no": 0}
+
+
+def _legacy_map_cfg(name, other_type, other_trait):
+    from traits.api import Trait
+
+    def dom(s):
+        if isinstance(s, other_type):
+            return True
+        try:
+            return s in LMAP
+        except TypeError:
+            return False
+
+    def model(v):
+        if type(v) is other_type:
+            return UNSPEC           # accepted, stored in its trait wrapper
+        try:
+            return ("same", v) if v in LMAP else REJECT
+        except TypeError:
+            return REJECT
+        except Exception:
+            return UNSPEC
+
+    def shadow(s):
+        if isinstance(s, other_type):
+            return s
+        return LMAP[s]
+    cfg(name, lambda: Trait("yes", dict(LMAP), other_trait), dom, model,
+        "syes", kind="LegacyMap", shadow=shadow, skip=ARRAYS)
+
+
+def _legacy_cfgs():
+    from traits.api import Dict as _Dict, List as _List
+    _legacy_map_cfg("Trait('yes',{map},List)", list, _List)
+    _legacy_map_cfg("Trait('yes',{map},Dict)", dict, _Dict)
+
+
+_legacy_cfgs()
+
+
 # compounds ---------------------------------------------------------------------
 MEMBERS = [
     "Int", "Float", "Complex", "Str", "Bytes", "Bool", "CInt", "CFloat",
